@@ -1,6 +1,8 @@
 (* C15 — coefficient-list setters follow the documented length and reduction rules.  Statements only (Setters.v). *)
 From Coq Require Import ZArith List Arith.
 From NTT Require Import Setters.
+From NTT Require SetterSpec GenSetterEq.
+From NTT.gen Require GenLoop.
 Local Open Scope Z_scope.
 
 (* k <= degree: value i reduced into every modulus at coefficient i, zero fill *)
@@ -27,3 +29,27 @@ Print Assumptions C15_throws.
 Theorem C15_red : forall P cm v, 0 < P cm -> 0 <= red P true cm v < P cm /\ red P true cm v = v mod P cm /\ red P false cm v = v.
 Proof. intros P cm v H. unfold red. split; [apply Z.mod_pos_bound; exact H | split; reflexivity]. Qed.
 Print Assumptions C15_red.
+
+(* THE SETTER OF THE SOURCE: poly::set(It first, It last, bool reduce_coeffs), instantiated at It = const value_type* (the instance behind
+   the initializer-list and pointer setters and constructors), translated by tools/cxxloop2coq.py on every run into gen/GenLoop.v --
+   [first, last) is a range of an array, this->_data an array, every access bounds-checked, `throw` = no result, the two non-canonical
+   `for` loops become fuelled while loops -- writes exactly Setters.set_list, the model of the theorems above, for every degree, number
+   of moduli, input range and flag, and throws exactly when the model does.  16-bit limbs: the remainder `*viter % p` is evaluated in the promoted
+   type int. *)
+Theorem C15_source_set_list : forall n nm P vals data0 f l reduce fuel, (f <= l <= length vals)%nat -> length data0 = (nm * n)%nat ->
+  Z.of_nat (nm * n) < 2 ^ 61 -> Z.of_nat n < 2 ^ 61 -> Z.of_nat nm < 2 ^ 61 -> Z.of_nat (length vals) < 2 ^ 61 -> (n < fuel)%nat -> (nm <= length P)%nat ->
+  let out := set_list n nm (fun cm => nth cm P 0) reduce (firstn (l - f) (skipn f vals)) data0 in
+  let res := option_map (fun s : SetterSpec.SS => fst (fst s)) in
+  (Forall (fun p => 0 < p < 2 ^ 16) (firstn nm P) -> Forall (fun v => 0 <= v < 2 ^ 16) vals ->
+     res (GenLoop.gen_set_list_u16 fuel (Z.of_nat n) data0 vals (Z.of_nat f) (Z.of_nat l) reduce (Z.of_nat nm) P) = out) /\
+  (Forall (fun p => 0 < p < 2 ^ 32) (firstn nm P) -> Forall (fun v => 0 <= v < 2 ^ 32) vals ->
+     res (GenLoop.gen_set_list_u32 fuel (Z.of_nat n) data0 vals (Z.of_nat f) (Z.of_nat l) reduce (Z.of_nat nm) P) = out) /\
+  (Forall (fun p => 0 < p < 2 ^ 64) (firstn nm P) -> Forall (fun v => 0 <= v < 2 ^ 64) vals ->
+     res (GenLoop.gen_set_list_u64 fuel (Z.of_nat n) data0 vals (Z.of_nat f) (Z.of_nat l) reduce (Z.of_nat nm) P) = out).
+Proof.
+  exact (fun n nm P vals data0 f l reduce fuel Hfl Hd Hs Hn Hnm Hl Hfu HPl =>
+    conj (GenSetterEq.source_set_list_u16 n nm P vals data0 f l reduce fuel Hfl Hd Hs Hn Hnm Hl Hfu HPl)
+   (conj (GenSetterEq.source_set_list_u32 n nm P vals data0 f l reduce fuel Hfl Hd Hs Hn Hnm Hl Hfu HPl)
+         (GenSetterEq.source_set_list_u64 n nm P vals data0 f l reduce fuel Hfl Hd Hs Hn Hnm Hl Hfu HPl))).
+Qed.
+Print Assumptions C15_source_set_list.
